@@ -389,6 +389,14 @@ def run(ctx):
     from . import c07
     from .c06 import _Prefixed
     c07.run(_Prefixed(ctx, "snapshot-"))
+    # "a StepEnv is deterministic in its seed": nothing reachable from the StepEnv methods (through the core's step, shuffle and
+    # event processing) draws on a source of nondeterminism (C09's deny list, rooted at the Python class)
+    from . import c09
+    # (get_market_data builds the keyed result dictionary handed to Python - a HashMap whose keys are looked up, never iterated
+    # into results; its layout is C19's subject - so it is not a root here)
+    se = [f for n, f in pymethods(ctx, "StepEnv").items() if n != "get_market_data"]
+    ctx.check(len(se) >= 10, "seed-deny-list", "roots", "-", "%d StepEnv methods are the roots" % len(se))
+    c09.deny_rules(_Prefixed(ctx, "seed-"), m, se, what="the StepEnv methods")
 
     ctx.assume("PyO3 0.20 argument extraction raises OverflowError for out-of-range integers before the method body runs (trusted)")
 
